@@ -266,6 +266,9 @@ class TriggerHandlerDecorator(Decorator, ABC):
     async def handle_dispatch(self, data: DispatchData) -> bool | None:
         """Handle a trigger dispatch call. Return False for stop dispatching."""
 
+    def dispatch_accepted(self, data: DispatchData) -> None:  # noqa: B027
+        """Note that every trigger handler decorator accepted the dispatch and the action is started."""
+
 
 class CallHandlerDecorator(Decorator, ABC):
     """Base class for call-based handlers."""
